@@ -671,6 +671,22 @@ def c_star(a, b):
     parts = (ev(a), ev(b), 3)
     return h_join(*parts)
 
+def c_starcall(a, b):
+    call_args = (ev(a), ev(b))
+    return h_expr(*call_args)
+
+def c_starcall_kw(a, b):
+    call_args = (ev(('x', a)), b)
+    r = h_kw(*call_args)
+    return r
+
+def c_methexpr(a, b):
+    out = []
+    add = out.append
+    add(ev(a))
+    out.append(b)
+    return out
+
 def c_meth(v, a):
     return K(v).caller_m(a)
 
@@ -738,6 +754,7 @@ def main():
         'c_callback': itertools.product(vals, vals), 'c_record': itertools.product(vals, vals), 'c_dictcomp': itertools.product(vals, vals),
         'c_yield': itertools.product(vals, vals), 'c_dupe': itertools.product(vals, vals), 'c_with2': itertools.product(vals, vals),
         'c_named_cond': itertools.product([None] + vals, vals), 'c_methval': itertools.product(vals, vals), 'c_star': itertools.product(vals, vals),
+        'c_starcall': itertools.product(vals, vals), 'c_starcall_kw': itertools.product(vals, vals), 'c_methexpr': itertools.product(vals, vals),
         'c_rng_swapped': itertools.product(vals, vals), 'c_closure': itertools.product(vals, vals), 'c_try_rest': [(v,) for v in vals], 'c_try_ret': [(v,) for v in vals], 'c_try_norets': [(v,) for v in vals], 'c_rng_self': itertools.product(vals, vals),
     }
     bad = 0
